@@ -11,7 +11,7 @@ from vf.core import derive_seed, run_given
 
 ID = "C09"
 RULE = (
-    "Documents built through the API with 1..3 sheets x 1..3 tables; table names unique / duplicated across sheets / shared with "
+    "Documents built through the API with 1..3 sheets x 1..3 tables (plus one table of 720 columns, for references around the column names Z/AA and ZZ/AAA); table names unique / duplicated across sheets / shared with "
     "the host sheet; header rows/columns 0..2; header labels absent / unique / duplicated within table, sheet or document (labels "
     "with spaces and operator characters, which force quoting). Stored reference nodes, encoded the way Numbers-authored fixtures "
     "encode them: single cell, rectangle (colon tract, both single-value and begin/end-pair relative lists), row span, column span, "
@@ -591,8 +591,37 @@ def cases(draw, nrefs):
             "header_zero": header_zero, "insert": insert, "merge_header": merge_header, "edit_format": edit_format}
 
 
+def wide_case():
+    """One table of 720 columns without headers: references to and from the columns around Z/AA (25/26), ZZ/AAA (701/702) and the
+    last one are printed as coordinates and must read back as the stored columns."""
+    config = {"sheets": [{"name": "Sheet 1", "tables": [{"name": "Wide", "rows": 3, "cols": 720, "hr": 0, "hc": 0, "col_labels": {}, "row_labels": {}}]}]}
+    cols = [0, 25, 26, 27, 51, 52, 675, 676, 700, 701, 702, 703, 718, 719]
+    refs = []
+    hosts = [[1, 1], [2, 704], [0, 26], [1, 719], [2, 0], [0, 701], [1, 702], [2, 350]]
+    k = 0
+    for c in cols:
+        for ca in (False, True):
+            host = hosts[k % len(hosts)]
+            k += 1
+            refs.append({"to": [0, 0], "kind": "cell", "host_table": [0, 0], "host": host, "row": k % 3, "col": c, "row_abs": bool(k % 2), "col_abs": ca})
+    for c0, c1 in ((700, 703), (25, 27), (701, 702), (702, 719), (0, 719), (675, 702)):
+        for flags in ([False] * 4, [True] * 4, [False, False, True, False], [False, False, False, True]):
+            host = hosts[k % len(hosts)]
+            k += 1
+            refs.append({"to": [0, 0], "kind": "rect", "host_table": [0, 0], "host": host, "r0": 0, "r1": 2, "c0": c0, "c1": c1, "abs": list(flags), "pair": False,
+                         "decoy_r": 0, "decoy_c": c0})
+            host = hosts[k % len(hosts)]
+            k += 1
+            refs.append({"to": [0, 0], "kind": "cols", "host_table": [0, 0], "host": host, "r0": 0, "r1": 0, "c0": c0, "c1": c1, "abs": [False, False, flags[2], flags[3]], "pair": False,
+                         "decoy_r": 0, "decoy_c": c0})
+    # one host per reference: hosts are spread over the three rows and all columns
+    for i, ref in enumerate(refs):
+        ref["host"] = [i % 3, (i * 37) % 720]
+    return {"lane": "config", "config": config, "refs": refs}
+
+
 def tasks(tier, seed):
-    t = []
+    t = [("wide", {})]
     for k in range(16):
         t.append(("configs", {"n": 8 if tier == "quick" else 110, "nrefs": 150, "seed": derive_seed(seed, "c09", k)}))
     return t
@@ -601,6 +630,10 @@ def tasks(tier, seed):
 def run_task(ctx, lane, **kw):
     from hypothesis import Phase
 
+    if lane == "wide":
+        check_config(ctx, wide_case())
+        ctx.count("wide_tables")
+        return
     run_given(ctx, cases(kw["nrefs"]), lambda c: check_config(ctx, c), kw["n"], kw["seed"], phases=(Phase.explicit, Phase.generate))
 
 
